@@ -103,7 +103,9 @@ def emit(pairs):
     items = []
     for case, imp in pairs:
         d = E.coq_list([f"({E.coq_string(a)}, {E.coq_list([f'({E.coq_string(b)}, {E.to_coq(m)})' for b, m in bs])})" for a, bs in case["dict"]])
-        nodes = E.coq_list([res_to_coq(n["resources"]) for n in case["nodes"]])
+        # qref sorts a routine's resources by name when the document is loaded; the type of a newly created base
+        # resource is the type of the first decomposed resource (in that order) that contributes to it
+        nodes = E.coq_list([res_to_coq(sorted(n["resources"], key=lambda r: r[0])) for n in case["nodes"]])
         if imp.get("ok"):
             got = "(Some " + E.coq_list([res_to_coq(n) for n in imp["nodes"]]) + ")"
             if not imp.get("dict_unchanged", True):
